@@ -87,6 +87,9 @@ def workflows():
         {'stage0.G': m(), 'stage1.G': m(1), 'stage1.Obs': m(1, ['stage0.G', 'stage1.G'], repeat=True)})
     add('xobs-samename-rev', [comp('G'), comp('G', stage=1), obs('Obs', ['stage0.G:ref', 'stage1.G:ref'], stage=1)],
         {'stage0.G': m(), 'stage1.G': m(1), 'stage1.Obs': m(1, ['stage0.G', 'stage1.G'], repeat=True)})
+    # `repeatInterval: 0` does not make a component repeat: B is a plain consumer of A
+    add('chain2-zero', [comp('A'), comp('B', ['A:ref'], wa={'repeatInterval': 0})],
+        {'stage0.A': m(), 'stage0.B': m(producers=['stage0.A'])})
     # a plain consumer of two producers with the same name, one in an earlier stage and one in its own stage
     add('samename-consumer', [comp('G'), comp('G', stage=1), comp('C', ['stage0.G:ref', 'stage1.G:ref'], stage=1)],
         {'stage0.G': m(), 'stage1.G': m(1), 'stage1.C': m(1, ['stage0.G', 'stage1.G'])})
